@@ -147,7 +147,7 @@ class ForestGen:
             if kind == "compile" and self.chance(0.6):
                 root_attrs.append(Attr(AT["language"], FORM["data1"], self.r.choice([1, 2, 4, 12])))
             if self.chance(cfg.bulk):
-                n = self.r.choice([300, 1100, 1100, 5000, 66000])
+                n = self.r.choice([300, 1100, 1100, 5000]) if self.r.random() < 0.9 else 66000
                 root_attrs.append(Attr(AT["producer"], FORM["string"], b"p" * n))
                 self.label("bulky-unit")
             root = Die(TAG["compile_unit" if kind == "compile" else "partial_unit"], root_attrs)
